@@ -157,6 +157,7 @@ def record_offsets(case, file_index):
 
 
 RECORD_FAULTS = [
+    ("drop_record", {}),
     ("bad_byte", {"line": 1, "pos": 2}), ("bad_byte", {"line": 3, "pos": 0}),
     ("qual_len", {"delta": -1}), ("qual_len", {"delta": 2}),
     ("drop_line", {"line": 0}), ("drop_line", {"line": 1}), ("drop_line", {"line": 2}), ("drop_line", {"line": 3}),
@@ -182,7 +183,7 @@ def enumerate_faults(case):
     for fi in range(len(paths)):
         for rec in range(nrec):
             for kind, extra in RECORD_FAULTS:
-                if kind == "mate_rename" and not case["paired"]:
+                if kind in ("mate_rename", "drop_record") and not case["paired"]:
                     continue
                 plan.append([dict(kind=kind, file=fi, rec=rec, **extra)])
         if case["paired"]:
@@ -209,7 +210,7 @@ def random_fault(rng, case, files):
     if r < 0.5 and cont == ".gz" and case["input"]["members"][fi] == 1 and len(data) > 20:
         return {"kind": "gz_flip", "file": fi, "offset": rng.randrange(10, len(data)), "bit": rng.randrange(8)}
     kind, extra = rng.choice(RECORD_FAULTS)
-    if kind == "mate_rename" and not case["paired"]:
+    if kind in ("mate_rename", "drop_record") and not case["paired"]:
         kind, extra = "qual_len", {"delta": -1}
     if case["paired"] and rng.random() < 0.15:
         return {"kind": "mate_missing", "file": fi, "k": rng.randint(1, 3)}
